@@ -15,6 +15,7 @@ import (
 	"bytes"
 	"crypto/sha1"
 	"fmt"
+	"os"
 	"runtime/debug"
 	"sync"
 	"sync/atomic"
@@ -207,4 +208,66 @@ func TestC03AllocFailure(t *testing.T) {
 		t.Skip("inconclusive: no allocation was refused on this machine")
 	}
 	stats.Case("alloc-refused", true, "allocation-refused-by-the-system")
+}
+
+func vsize() (int64, bool) {
+	b, err := os.ReadFile("/proc/self/statm")
+	if err != nil {
+		return 0, false
+	}
+	var pages int64
+	if _, err := fmt.Sscan(string(b), &pages); err != nil {
+		return 0, false
+	}
+	return pages * int64(os.Getpagesize()), true
+}
+
+// "Fully released": a buffer that was freed is given back to the system, not
+// only subtracted from the accounting.  For every size around the powers of
+// two that piece lengths take (the allocator switches from the heap to
+// mappings of its own somewhere among them), 512 MiB worth of allocate/free
+// cycles must not grow the address space of the process by more than half of
+// that (the Go heap reserves address space 64 MiB at a time; a mapping that
+// is never unmapped costs the full 512 MiB).
+func TestC03AllocReleased(t *testing.T) {
+	if _, ok := vsize(); !ok {
+		t.Skip("inconclusive: /proc/self/statm cannot be read")
+	}
+	const total = 512 << 20
+	var sizes []int
+	for sh := 16; sh <= 24; sh++ {
+		for _, d := range []int{-4096, -1, 0, 1, 4096} {
+			sizes = append(sizes, 1<<sh+d)
+		}
+	}
+	for _, n := range sizes {
+		before := alloc.Bytes()
+		cycle := func() {
+			b, err := alloc.Alloc(n)
+			if err != nil {
+				t.Fatalf("alloc.Alloc(%d) refused after earlier buffers of that size were freed: %T", n, err)
+			}
+			b[0], b[n-1] = 1, 1
+			if err := alloc.Free(b); err != nil {
+				t.Fatalf("alloc.Free of a %d-byte buffer: %T", n, err)
+			}
+		}
+		for i := 0; i < 16; i++ {
+			cycle()
+		}
+		v0, _ := vsize()
+		cycles := total / n
+		for i := 0; i < cycles; i++ {
+			cycle()
+		}
+		v1, _ := vsize()
+		if got := alloc.Bytes(); got != before {
+			t.Fatalf("%d cycles of Alloc(%d)/Free: %d bytes reported as allocated, %d before", cycles, n, got, before)
+		}
+		if v1-v0 > total/2 {
+			t.Fatalf("%d cycles of Alloc(%d)/Free grew the address space of the process by %d MiB (%d MiB were allocated and freed in all, accounting back at %d): freed buffers of %d bytes are not given back to the system", cycles, n, (v1-v0)>>20, total>>20, alloc.Bytes(), n)
+		}
+		stats.Case(fmt.Sprintf("alloc-released/%d", n), true, "freed-buffer-returned-to-the-system")
+	}
+	stats.Exhaustive("allocation sizes 2^16..2^24, each -4096, -1, 0, +1, +4096")
 }
